@@ -77,11 +77,19 @@ class Dag:
             self.node("batch:%d,%s" % (rng.randrange(3), ",".join(map(str, ops))), s)
         elif k < 0.65:
             self.retransform(rng.choice(self.usable()))
-        elif k < 0.72:
+        elif k < 0.70:
             i = rng.choice(self.usable())
             self.tid += 1
             s = frozenset((l, self.tid * 1000 + t) for (l, t) in self.src[i])
             self.node(rng.choice(["scale:%d,%d,%d,%d", "mirror:%d,%d,%d,%d"]) % (i, self.R(), self.R(), self.R()), s)
+        elif k < 0.76:  # nested unnamed temporaries with non-commuting transforms (collapse paths)
+            a, b, c, d_ = self.pick_disjoint(4)
+            self.tid += 1
+            src = frozenset((l, self.tid * 1000 + t) for i in (a, b, c, d_) for (l, t) in self.src[i])
+            same = rng.random() < 0.6
+            o = rng.randrange(3)
+            ops3 = (o, o, o) if same else (rng.randrange(3), rng.randrange(3), rng.randrange(3))
+            self.node("nest:%d,%d,%d,%d,%d,%d,%d,%s" % (ops3 + (a, b, c, d_) + (",".join(str(self.R()) for _ in range(8)),)), src)
         elif k < 0.80:  # (a-b)-c == a-(b+c)
             a, b, c = self.pick_disjoint(3)
             n1 = self.node("sub:%d,%d" % (a, b), self.src[a] | self.src[b])
